@@ -725,6 +725,29 @@ def _is_state_field(M, m, t):
     return ty is not None and ("PollArray" in M.F.types[ty]["s"] or "PollVec" in M.F.types[ty]["s"] or "PollState" in M.F.types[ty]["s"])
 
 
+def exits_only_on_exhaustion(di, lp, nxt):
+    """the drop loop is left only because its iterator is exhausted (the `None` edge of `next`): a `return` / `break` at the
+    first slot that needs no dropping would leave the later slots undropped"""
+    body = di.body
+    none_e = set(di.outcome_edges(nxt, "None")) if nxt is not None else set()
+    none_targets = {b for _, b in none_e}
+    inside = set(lp[1])
+    for a in inside:
+        if body.is_cleanup(a):
+            continue
+        for b in body.succs(a):
+            if b in inside or body.is_cleanup(b):
+                continue
+            if (a, b) in none_e:
+                continue
+            # leaving through a block that cannot return normally (panic) is not an exit
+            r = di.reach_from_edges([(a, b)])
+            if not any(x in r for x in di.return_blocks):
+                continue
+            return False
+    return True
+
+
 def destructor_filter_ready(M, m):
     """The destructor drops, for every position, the stored slot iff the slot's state is Ready.
     Accepted forms (all over `state.iter*().zip(slots.iter_mut())`, either operand order):
@@ -768,7 +791,7 @@ def destructor_filter_ready(M, m):
                         lp = body.innermost_loop(s.block)
                         if se and lp:
                             ok, _ = di.must_reach([t for _, t in se], [s.block], [lp[0]] + list(di.return_blocks))
-                            if ok:
+                            if ok and exits_only_on_exhaustion(di, lp, nxt):
                                 return True
         for fe in [s for s in di.sites if s.callee.name == "for_each"]:
             src, cl2 = fe.arg(0), fe.arg(1)
@@ -819,7 +842,7 @@ def destructor_filter_ready(M, m):
                         lp = body.innermost_loop(s.block)
                         if se and lp:
                             ok, _ = di.must_reach([t for _, t in se], [s.block], [lp[0]] + list(di.return_blocks))
-                            if ok:
+                            if ok and exits_only_on_exhaustion(di, lp, nxt):
                                 return True
     # ---------------------------------------------------------------- form C
     # `for i in state.ready_indexes() { slots[i].assume_init_drop() }`  (ready_indexes = indexes whose state is Ready: C02.UTIL)
@@ -839,7 +862,7 @@ def destructor_filter_ready(M, m):
             if nxt is not None and lp is not None and always_reached(di, [nxt.block]):
                 se = di.outcome_edges(nxt, "Some")
                 ok, _ = di.must_reach([x for _, x in se], [s.block], [lp[0]] + list(di.return_blocks)) if se else (False, [])
-                if ok:
+                if ok and exits_only_on_exhaustion(di, lp, nxt):
                     return True
     # ---------------------------------------------------------------- form B
     for s in di.sites:
@@ -871,7 +894,7 @@ def destructor_filter_ready(M, m):
                     continue
                 ok1, _ = di.must_reach([x for _, x in te], [s.block], [lp[0]] + list(di.return_blocks))
                 ok2, _ = di.must_reach([x for _, x in se], [t.block], [lp[0]] + list(di.return_blocks))
-                if ok1 and ok2:
+                if ok1 and ok2 and exits_only_on_exhaustion(di, lp, nxt):
                     return True
     # ---------------------------------------------------------------- form D
     # `for i in 0..N { if state[i].is_ready() { slots[i].assume_init_drop() } }` (also with `if !.. { continue }`)
@@ -905,7 +928,7 @@ def destructor_filter_ready(M, m):
                     continue
                 ok1, _ = di.must_reach([x for _, x in te], [s.block], [lp[0]] + list(di.return_blocks))
                 ok2, _ = di.must_reach([x for _, x in se], [t.block], [lp[0]] + list(di.return_blocks))
-                if ok1 and ok2:
+                if ok1 and ok2 and exits_only_on_exhaustion(di, lp, nxt):
                     return True
     return False
 
